@@ -482,11 +482,15 @@ func init() {
 	})
 	reg("sync/atomic.LoadInt32", func(ex *Exec, fr *Frame, st *State, reach string, a []Val, sig *types.Signature, pos token.Pos) Val {
 		lv := ex.derefLV(fr, st, reach, a[0], pos)
+		ex.inAtomic = true
+		defer func() { ex.inAtomic = false }()
 		ex.atomicAccess(lv)
 		return ex.load(st, lv)
 	})
 	reg("sync/atomic.CompareAndSwapInt32", func(ex *Exec, fr *Frame, st *State, reach string, a []Val, sig *types.Signature, pos token.Pos) Val {
 		lv := ex.derefLV(fr, st, reach, a[0], pos)
+		ex.inAtomic = true
+		defer func() { ex.inAtomic = false }()
 		ex.atomicAccess(lv)
 		v := ex.load(st, lv).term()
 		ok := ex.sc.define("cas", sBool, mkEq(v, a[1].term()))
@@ -496,6 +500,8 @@ func init() {
 	})
 	reg("sync/atomic.AddUint32", func(ex *Exec, fr *Frame, st *State, reach string, a []Val, sig *types.Signature, pos token.Pos) Val {
 		lv := ex.derefLV(fr, st, reach, a[0], pos)
+		ex.inAtomic = true
+		defer func() { ex.inAtomic = false }()
 		ex.atomicAccess(lv)
 		v := ex.load(st, lv).term()
 		nv := ex.sc.define("atomicadd", sInt, mkMod(mkAdd(v, a[1].term()), "4294967296"))
